@@ -14,8 +14,8 @@ from ..report import Result
 DECLARATIVE = {"ZeroOrOne": (0, 1), "ZeroOrMany": (0, "inf"), "OneOrMany": (1, "inf"), "plain": (1, 1)}
 SUFFIX = {"": "plain", "?": "ZeroOrOne", "*": "ZeroOrMany", "+": "OneOrMany"}
 NON_SEMANTIC = {"lineno", "col_offset", "end_lineno", "end_col_offset", "kind", "type_comment", "ctx"}
-REQUIRED_BODY = {"Module", "FunctionDef", "AsyncFunctionDef", "ClassDef", "If", "For", "While", "With"}
-REQUIRED_ORELSE = {"If", "For", "While"}
+REQUIRED_BODY = {"Module", "FunctionDef", "AsyncFunctionDef", "ClassDef", "If", "For", "AsyncFor", "While", "With", "AsyncWith"}   # "bodies of modules, definitions and if/for/while/with blocks" - the async forms of def, for and with are the same blocks
+REQUIRED_ORELSE = {"If", "For", "AsyncFor", "While"}
 
 
 def _suffix_of_regex(pattern: str) -> Optional[Tuple[str, str]]:
